@@ -18,7 +18,8 @@ fn escape_go_string(value: &str) -> String {
             '\n' => escaped.push_str("\\n"),
             '\r' => escaped.push_str("\\r"),
             '\t' => escaped.push_str("\\t"),
-            other if other.is_control() => {
+            // Go rejects a byte order mark anywhere but at the start of a file, also inside a literal
+            other if other.is_control() || other == '\u{feff}' => {
                 escaped.push_str(&format!("\\u{:04x}", other as u32));
             }
             other => escaped.push(other),
